@@ -156,3 +156,57 @@ mod with_alloc {
         match r { Ok(()) => assert!(need <= 4 && e.writer().position() == need), Err(x) => assert!(need == 5 && x.is_write()) }
     }
 }
+
+#[cfg(feature = "std")]
+mod with_std {
+    use super::*;
+    use minicbor::encode::write::Writer;
+    use std::io;
+
+    /// `io::Write` that accepts at most one byte per call, with a capacity.
+    struct OneByte { out: [u8; 8], n: usize, cap: usize }
+    impl io::Write for OneByte {
+        fn write(&mut self, buf: &[u8]) -> io::Result<usize> {
+            if buf.is_empty() || self.n >= self.cap { return Ok(0) }
+            self.out[self.n] = buf[0];
+            self.n += 1;
+            Ok(1)
+        }
+        fn flush(&mut self) -> io::Result<()> { Ok(()) }
+    }
+
+    /// The std::io adapter: same bytes as the array cursor even when the underlying writer
+    /// accepts one byte per call; a writer that runs full yields a write error (never Ok with
+    /// truncated output).
+    #[kani::proof]
+    #[kani::unwind(12)]
+    pub fn c13_std_writer_short_writes_and_capacity() {
+        let v: (u16, bool) = kani::any();
+        let cap: usize = kani::any();
+        kani::assume(cap <= 6);
+        let mut e = Encoder::new(Cursor::new([0u8; 8]));
+        assert!(e.encode(&v).is_ok());
+        let n = e.writer().position();
+        let want = e.into_writer().into_inner();
+        let mut e = Encoder::new(Writer::new(OneByte { out: [0; 8], n: 0, cap }));
+        let r = e.encode(&v).map(|_| ());
+        let w = e.into_writer().into_inner();
+        match &r {
+            Ok(()) => {
+                assert!(n <= cap, "encoding into a full std::io writer reported success");
+                assert!(w.n == n, "std::io adapter lost bytes under short writes");
+                let mut i = 0;
+                while i < 8 { if i < n { assert!(w.out[i] == want[i], "std::io adapter wrote different bytes"); } i += 1; }
+            }
+            Err(x) => {
+                assert!(n > cap, "encoding failed although the writer had room");
+                assert!(x.is_write());
+                let mut i = 0;
+                while i < 8 { if i < w.n { assert!(w.out[i] == want[i], "not a prefix of the encoding"); } i += 1; }
+            }
+        }
+        kani::cover!(r.is_ok() && n == 5);
+        kani::cover!(r.is_err());
+        core::mem::forget(r);
+    }
+}
